@@ -9,6 +9,7 @@ import GoNeat.Driver.Stats
 import GoNeat.Driver.Depth
 import GoNeat.Driver.Genesis
 import GoNeat.Driver.Parallel
+import GoNeat.Driver.IO
 
 namespace GoNeat.Driver
 def allOps : List (String × Handler) :=
@@ -22,4 +23,5 @@ def allOps : List (String × Handler) :=
   ++ depthOps
   ++ genesisOps
   ++ parallelOps
+  ++ ioOps
 end GoNeat.Driver
